@@ -57,7 +57,18 @@ RULE = ("irreducible row-stochastic matrices with 3..7 states (thorough: ..9) fr
         "60..300 states with 3..10 % of the transitions present (a cycle through all states plus random transitions, reversible or not) "
         "through committors, mfpts to sink sets and (60..90 states) the all-pairs table on ndarray (C and Fortran order) and csr / csc / coo / "
         "lil / dok / bsr / dia, at the ordinary 1e-9: first-step equations exactly in rationals, sparse against dense; oracle only (exact "
-        "elimination in Coq is kept to <= 9 states). non-trivial := at least 3 states and at least one state that is neither source "
+        "elimination in Coq is kept to <= 9 states). Round 3s third wave: (d) stream `rare` (18 quick / 144 thorough): 3..7-state chains "
+        "(counts with row sum 2^K, exactly stochastic doubles) with one or two states that are entered with probability 2^-27..2^-36 only "
+        "(smallest exact equilibrium population in [2^-36, 1e-8)) through the all-pairs table, lag times 1/2, 5/2, 3, populations given "
+        "(the exact stationary vector) or computed, on every container and layout: lag linearity at 1e-9; first-step equations, column "
+        "agreement with the single-sink routine and container agreement at a tolerance relative to the column's largest exact entry: "
+        "2^-46 / min population (given; the unchanged code is off by <= 0.5 * 2^-52 / min population, its single-sink columns by <= 1.5 of "
+        "these units, measured over 1900 chains) or 2^-42 / min population (computed: <= 18 units); oracle only; (e) stream `big` (4 quick / "
+        "12 thorough): slowly mixing chains with 1000..1100 states -- a nearest-neighbour walk in a double-well potential (barrier 0.5..4 kT) "
+        "and two sparse random basins joined by a few weak links -- through mfpts to sink sets of 1..3 members (lag 1/2, 5/2, 3; populations "
+        "handed in to keep the eigen-solver out) and committors, ndarray and csr (thorough: + Fortran order, csc), judged by the first-step "
+        "equations evaluated in extended precision at 2^-45 of the largest mean first-passage time (the unchanged code's residual is <= 6 * 2^-52 "
+        "of it: the tolerance is 22 x the worst seen; committors: 1e-9), sink zeros, lag linearity, container agreement; BLAS limited to one thread; oracle only. non-trivial := at least 3 states and at least one state that is neither source "
         "nor sink with a committor strictly between 0 and 1 (committors) / at least two non-sink states (mfpts)")
 TRUSTED = ["translator/tr_tpt.py (fail-closed symbolic reading of _I_m_Q / committors / mfpts into Gen/TptGen.v) and the meaning "
            "of the array vocabulary Base/TptBase.v (NumPy fancy indexing, item assignment, broadcasting, axis sums) -- both "
@@ -73,7 +84,11 @@ ASSUMPTIONS = ["state indices are non-negative (NumPy's negative-index wrap-arou
                "theorems assume duplicate-free, disjoint source and sink lists and exact rational arithmetic",
                "near-symmetric rare-event stream: crossing probabilities 2^-28..2^-35 and largest mean first-passage time <= 2^37 steps "
                "(beyond that the unchanged code's all-pairs table is itself 1e-4..1e-3 off); tolerance relative to the square of the time scale",
-               "boolean / 8-bit integer transition matrices: not through mfpts(populations=None) (single-precision eigen-solve, like float32)"]
+               "boolean / 8-bit integer transition matrices: not through mfpts(populations=None) (single-precision eigen-solve, like float32)",
+               "rare-state stream: smallest equilibrium population >= 2^-36 and largest mean first-passage time <= 2^38 steps (below that the "
+               "eigen-solver's populations and the single-sink solves are themselves off by more than 1e-5); tolerance proportional to 1 / min population",
+               "1000+-state stream: first-step residual judged relative to the largest mean first-passage time (the solve is backward stable, not "
+               "componentwise accurate)"]
 SHARD = 12     # nondyadic 9-state all-pairs cases cost ~1 min each in Coq: 24 of them in one file came close to the per-file time limit on a loaded machine
 EXHAUSTIVE = {"thorough": False}
 ESSENTIAL_TAGS = ["comm", "comm-multi-sink", "comm-multi-source", "mfpt-sinks", "mfpt-multi-sink", "mfpt-all",
@@ -93,7 +108,10 @@ ESSENTIAL_TAGS = ["comm", "comm-multi-sink", "comm-multi-source", "mfpt-sinks", 
                   "int-dtype-noninteger-lag-mfpt-multi-sink", "int-dtype-noninteger-lag-mfpt-all",
                   "nearsym-all-pairs-pops-none", "nearsym-all-pairs-pops-given",
                   "large-sparse-committors", "large-sparse-mfpt-sinks", "large-sparse-mfpt-all",
-                  "large-sparse-200plus-committors", "large-sparse-200plus-mfpt-sinks"]
+                  "large-sparse-200plus-committors", "large-sparse-200plus-mfpt-sinks",
+                  # round 3s, third wave
+                  "rare-all-pairs-pops-none", "rare-all-pairs-pops-given", "rare-all-pairs-noninteger-lag", "rare-all-pairs-integer-lag-not-1",
+                  "big-1000plus-mfpt-sinks", "big-1000plus-committors", "big-double-well", "big-two-basins", "big-1000plus-sparse-input"]
 CONTAINERS = ["dense", "csr", "csc", "coo", "lil"]
 TOL = F(1, 10 ** 9)
 
@@ -465,6 +483,169 @@ def _round3s2_cases(rng, big):
     return out
 
 
+def _stationary_exact(C):
+    """exact stationary vector of an irreducible count matrix (Fractions)"""
+    n = len(C)
+    T = [[F(x, sum(r)) for x in r] for r in C]
+    A = [[(1 if i == j else 0) - T[j][i] for j in range(n)] + [F(0)] for i in range(n)]
+    A[-1] = [F(1)] * n + [F(1)]
+    for col in range(n):
+        piv = next((r for r in range(col, n) if A[r][col] != 0), None)
+        if piv is None:
+            return None
+        A[col], A[piv] = A[piv], A[col]
+        p = A[col][col]
+        A[col] = [x / p for x in A[col]]
+        for r in range(n):
+            if r != col and A[r][col] != 0:
+                f = A[r][col]
+                A[r] = [x - f * y for x, y in zip(A[r], A[col])]
+    return [A[i][n] for i in range(n)]
+
+
+RARE_MIN_POP = F(1, 2 ** 36)
+RARE_MAX_STEPS = 2 ** 38
+
+
+def _rare(rng):
+    """chain with one or two rarely visited states: counts with row sum 2^K (exactly stochastic doubles), every
+    transition INTO a rare state has probability m 2^-e (e in 27..36), the rare states leave as fast as the others; the
+    smallest exact equilibrium population lies in [2^-36, 1e-8), the largest mean first-passage time below 2^38 steps"""
+    for _ in range(200):
+        n = rng.randint(3, 7)
+        e = rng.randint(27, 34)
+        K = e + 6
+        nr = rng.choice([1, 1, 2]) if n >= 5 else 1
+        C = [[(rng.randint(1, 3) if rng.random() < 0.7 else 0) for _ in range(n)] for _ in range(n)]
+        if rng.random() < 0.5:
+            for i in range(n):
+                for j in range(i):
+                    C[i][j] = C[j][i]
+        for i in range(n):
+            C[i][i] = 0
+        _top_up(C)
+        rs = [sum(r) for r in C]
+        C = [[x << (K - (rs[i].bit_length() - 1)) for x in C[i]] for i in range(n)]
+        rares = rng.sample(range(n), nr)
+        for r in rares:
+            for i in range(n):
+                if i == r:
+                    continue
+                old, new = C[i][r], 0
+                if i not in rares and (old or rng.random() < 0.3) and rng.random() < 0.85:
+                    new = rng.randint(1, 3) << (K - e - rng.randint(0, 2))
+                C[i][r] = new
+                C[i][i] += old - new
+        if min(C[i][i] for i in range(n)) < 0 or not _strongly_connected(C) or not all(sum(r) == 2 ** K for r in C):
+            continue
+        pi = _stationary_exact(C)
+        if pi is None or not (RARE_MIN_POP <= min(pi) < F(1, 10 ** 8)):
+            continue
+        E = _exact_mfpt_steps(C)
+        if E is None or max(max(r) for r in E) > RARE_MAX_STEPS:
+            continue
+        return C
+    return None
+
+
+def _rare_ctol(c):
+    """Tolerance of the rare-state stream, per column of the table (absolute): the all-pairs route divides by the
+    populations, the single-sink route solves a system of condition ~ 1 / min population, the eigen-solver's smallest
+    component carries a relative error of ~ 2^-52 / min population.  Measured on the unchanged code over 1900 chains, in
+    units of u = 2^-52 / min population relative to the column's largest exact entry: table with exact populations given
+    <= 0.5 u, single-sink columns <= 1.5 u, table with computed populations <= 18 u.  Allowed: 64 u (given), 1024 u
+    (computed): at the smallest admitted population 2^-36 that is 1e-3 / 1.6e-2 of the column's scale."""
+    C = c["counts"]
+    E = _exact_mfpt_steps(C)
+    mp = min(_stationary_exact(C))
+    u = F(1, 2 ** (46 if c["pops"] == "given" else 42)) / mp
+    n = len(C)
+    return [u * F(c["lag"]) * max(E[k][j] for k in range(n)) for j in range(n)]
+
+
+def _big_dwell(rng, n):
+    """nearest-neighbour walk in a double-well potential U(x) = h (x^2 - 1)^2 on n grid points of [-1.5, 1.5]
+    (Metropolis rates, step probability <= 1/4 each way): reversible, aperiodic, slowly mixing.  Sparse integer counts
+    with row sum 2^30 (exactly stochastic doubles): rows[i] = [[j, count], ...]"""
+    import math
+    h = rng.choice([0.5, 1.0, 2.0, 3.0, 4.0]) * rng.uniform(0.9, 1.1)
+    K = 30
+    xs = [-1.5 + 3.0 * i / (n - 1) for i in range(n)]
+    U = [h * (x * x - 1) ** 2 for x in xs]
+    rows = []
+    for i in range(n):
+        up = int(round(2 ** (K - 2) * min(1.0, math.exp(-(U[i + 1] - U[i]))))) if i + 1 < n else 0
+        dn = int(round(2 ** (K - 2) * min(1.0, math.exp(-(U[i - 1] - U[i]))))) if i > 0 else 0
+        row = []
+        if dn:
+            row.append([i - 1, dn])
+        row.append([i, 2 ** K - up - dn])
+        if up:
+            row.append([i + 1, up])
+        rows.append(row)
+    return rows
+
+
+def _big_basins(rng, n):
+    """two sparse random basins (a ring through each basin plus 2..4 random transitions per state, weight w = 2^4..2^8
+    times a small count) joined by 6..30 links of count 1..3: mixing inside a basin takes a few steps, crossing takes
+    thousands"""
+    a = n // 2 + rng.randint(-60, 60)
+    perm = list(range(n))
+    rng.shuffle(perm)
+    A, B = perm[:a], perm[a:]
+    w = 2 ** rng.randint(4, 8)
+    rev = rng.random() < 0.5
+    cnt = [dict() for _ in range(n)]
+
+    def put(i, j, x):
+        cnt[i][j] = x
+        if rev:
+            cnt[j][i] = x
+    for grp in (A, B):
+        for k, i in enumerate(grp):
+            put(i, grp[(k + 1) % len(grp)], w * rng.randint(1, 6))
+            for _ in range(rng.randint(2, 4)):
+                put(i, rng.choice(grp), w * rng.randint(1, 6))
+            if rng.random() < 0.5:
+                cnt[i][i] = w * rng.randint(1, 6)
+    for _ in range(rng.randint(6, 30)):
+        i, j = rng.choice(A), rng.choice(B)
+        cnt[i][j] = rng.randint(1, 3)
+        cnt[j][i] = cnt[i][j] if rev else rng.randint(1, 3)
+    return [[[j, x] for j, x in sorted(r.items())] for r in cnt], A, B
+
+
+def _round3s3_cases(rng, big):
+    out = []
+    # (d) rare states: the all-pairs table where an equilibrium population is below 1e-8, lag times 1/2, 5/2, 3
+    lags = ["1/2", "5/2", "3"]
+    for k in range(18 * (8 if big else 1)):
+        C = _rare(rng)
+        if C is not None:
+            out.append({"kind": "mfpt_a", "n": len(C), "counts": C, "lag": lags[k % 3], "pops": "given" if k % 2 else "none",
+                        "stream": "rare"})
+    # (e) 1000..1100 states, slowly mixing: sink-set mfpts and committors, dense and sparse input
+    for rep in range(3 if big else 1):
+        for chain in ("dwell", "basins"):
+            n = rng.choice([1000, 1024]) if rep == 0 else rng.randint(1000, 1100)
+            if chain == "dwell":
+                rows = _big_dwell(rng, n)
+                lo, hi = list(range(n // 8, 3 * n // 8)), list(range(5 * n // 8, 7 * n // 8))
+                far = [0, n - 1, n // 2]
+            else:
+                rows, lo, hi = _big_basins(rng, n)
+                far = []
+            ks = rng.choice([1, 2, 3])
+            pool = (far + hi) if rng.random() < 0.5 else (far + lo)
+            snk = rng.sample(far, 1) + rng.sample(hi, ks - 1) if far and rng.random() < 0.5 else rng.sample(pool, ks)
+            out.append({"kind": "big", "what": "mfpt_s", "n": n, "chain": chain, "rows": rows, "snk": snk,
+                        "lag": lags[(rep + (chain == "dwell")) % 3], "stream": "big", "more": big})
+            out.append({"kind": "big", "what": "comm", "n": n, "chain": chain, "rows": rows,
+                        "src": rng.sample(lo, rng.choice([1, 2])), "snk": rng.sample(hi, rng.choice([1, 2, 3])), "stream": "big", "more": big})
+    return out
+
+
 def _hist_cases(rng, count, sizes, lags):
     """history probes: the caller keeps ONE matrix object / index-set objects / populations object and
        call 0: computes; then overwrites the returned array in place (as after every call)
@@ -698,6 +879,8 @@ def generate(rng, tier):
                     for snk in itertools.combinations(range(n), kt):
                         if kt < n:
                             cases.append({"kind": "mfpt_s", "n": n, "counts": C, "snk": list(snk), "lag": "5/2"})
+    # round 3s (third wave): rarely visited states through the all-pairs table, 1000+-state slowly mixing chains
+    cases += _round3s3_cases(rng, big)
     return cases
 
 
@@ -873,6 +1056,9 @@ def _call(fn):
 
 def _pops_of(c, T):
     from enspara.msm.transition_matrices import eq_probs
+    if c.get("stream") == "rare" and c["pops"] == "given":
+        # the caller knows the populations: the exact stationary vector, rounded to doubles
+        return np.array([float(x) for x in _stationary_exact(c["counts"])])
     return np.asarray(eq_probs(T.copy()), dtype=float)
 
 
@@ -958,6 +1144,8 @@ def run_impl(c):
         return {"calls": [run_impl(x) for x in c["calls"]]}
     if c["kind"] == "hist":
         return _run_hist(c)
+    if c["kind"] == "big":
+        return _run_big(c)
     T = _tprob(c)
     eq = _pops_of(c, T) if c["kind"] == "mfpt_a" else None
     res = {}
@@ -1002,6 +1190,134 @@ def _run_hist(c):
     for k, ph in enumerate(phases):
         res[k].update(_references(ph, Ts[k], eqs[k]))
     return {"phases": res}
+
+
+# ---- 1000+-state chains (stream `big`): sparse integer counts, results as plain lists, judged in floating point
+BIG_CONTAINERS = ["dense", "csr"]
+BIG_MORE = ["dense-f", "csc"]       # thorough tier
+
+
+def _big_tprob(c):
+    n = c["n"]
+    T = np.zeros((n, n))
+    for i, row in enumerate(c["rows"]):
+        tot = sum(x for _, x in row)
+        for j, x in row:
+            T[i, j] = x / tot
+    return T
+
+
+def _one_thread():
+    try:
+        from threadpoolctl import threadpool_limits
+        return threadpool_limits(limits=1)
+    except Exception:
+        import contextlib
+        return contextlib.nullcontext()
+
+
+def _run_big(c):
+    from enspara.tpt import committors, mfpts
+    T = _big_tprob(c)
+    n = c["n"]
+    lag = float(F(c["lag"])) if "lag" in c else None
+    res = {}
+    with _one_thread():
+        for name in BIG_CONTAINERS + (BIG_MORE if c.get("more") else []):
+            X, same = _mk(name, T)
+            snk = _setform(name, c["snk"])
+            if c["what"] == "comm":
+                src = _setform(name, c["src"])
+                r, _ = _call(lambda: committors(X, src, snk))
+                ok = _set_same(src, c["src"])
+            else:
+                # the populations are handed in (this path does not use them): without them every call would start
+                # with an eigen-decomposition of the 1000-state matrix
+                pops = np.full(n, 1.0 / n)
+                r, _ = _call(lambda: mfpts(X, sinks=snk, populations=pops, lagtime=lag))
+                ok = bool((pops == 1.0 / n).all())
+            r["unchanged"] = bool(ok and same(T) and _set_same(snk, c["snk"]))
+            res[name] = r
+        if c["what"] == "mfpt_s":
+            res["lag1"] = _call(lambda: mfpts(T.copy(), sinks=list(c["snk"]), populations=np.full(n, 1.0 / n), lagtime=1.))[0]
+    return res
+
+
+BIG_RTOL = 2.0 ** -45     # first-step residual of a mean first-passage time vector, relative to its largest entry
+
+
+def _oracle_big(c, r):
+    """first-step equations of a 1000+-state chain, evaluated in extended precision on the doubles returned.  The dense
+    solve is backward stable: its residual is a few units of 2^-52 times the largest mean first-passage time S (measured
+    on the unchanged code over 400 chain / sink-set combinations: <= 5.7 * 2^-52 S); allowed 2^-45 S (128 units)."""
+    out = []
+    n = c["n"]
+    names = [x for x in ALL_CONTAINERS if x in r]
+    for name in names:
+        if not r[name]["unchanged"]:
+            out.append(("input-modified", "%s input (matrix, index sets or populations) changed during the call" % name))
+    bad = [name for name in names if "val" not in r[name]]
+    if bad:
+        out.append(("no-result-" + c["what"], "%s input (%d states): %s" % (bad[0], n, r[bad[0]])))
+        return out
+    T = _big_tprob(c).astype(np.longdouble)
+    snk = sorted(c["snk"])
+    d = np.array(r["dense"]["val"], dtype=float)
+    judged = []
+    for name in names:
+        v = np.array(r[name]["val"], dtype=float)
+        if v.shape != (n,):
+            out.append((("comm" if c["what"] == "comm" else "mfpt") + "-shape", "%s: shape %s for %d states" % (name, v.shape, n)))
+            continue
+        if any((v == w).all() for w in judged):
+            continue
+        judged.append(v)
+        x = v.astype(np.longdouble)
+        if c["what"] == "comm":
+            src = sorted(c["src"])
+            if (v[src] != 0).any():
+                out.append(("comm-source", "%s: committor %s on the sources %s" % (name, v[src].tolist(), src)))
+            if (v[snk] != 1).any():
+                out.append(("comm-sink", "%s: committor %s on the sinks %s" % (name, v[snk].tolist(), snk)))
+            if v.min() < -1e-9 or v.max() > 1 + 1e-9:
+                out.append(("comm-bounds", "%s: committors range over [%r, %r]" % (name, float(v.min()), float(v.max()))))
+            res = np.abs(x - T @ x)
+            res[src + snk] = 0
+            i = int(res.argmax())
+            if not float(res[i]) <= 1e-9:
+                out.append(("comm-first-step", "%s, %d states: q[%d]=%r but sum_j T[%d,j] q[j]=%r" % (
+                    name, n, i, float(v[i]), i, float((T @ x)[i]))))
+            if not float(np.abs(v - d).max()) <= 1e-9:
+                out.append(("container-agreement", "%s committors differ from dense by %.3g" % (name, float(np.abs(v - d).max()))))
+        else:
+            lag = float(F(c["lag"]))
+            if (v[snk] != 0).any():
+                out.append(("mfpt-sink-zero", "%s: t=%s on the sinks %s" % (name, v[snk].tolist(), snk)))
+            S = float(np.abs(v).max())
+            rhs = np.longdouble(lag) + T @ x
+            res = np.abs(x - rhs)
+            res[snk] = 0
+            i = int(res.argmax())
+            if not float(res[i]) <= BIG_RTOL * S:
+                out.append(("mfpt-first-step", "%s, %d states: t[%d]=%r but lag + sum_j T[%d,j] t[j]=%r (residual %.3g = %.3g of the "
+                            "largest mean first-passage time %.6g; allowed 2^-45 = 2.8e-14)" % (
+                                name, n, i, float(v[i]), i, float(rhs[i]), float(res[i]), float(res[i]) / S, S)))
+            if not float(np.abs(v - d).max()) <= 1e-7 * S:
+                out.append(("container-agreement", "%s mfpts differ from dense by %.3g (largest %.6g)" % (name, float(np.abs(v - d).max()), S)))
+    if c["what"] == "mfpt_s":
+        lag = float(F(c["lag"]))
+        if "val" in r["lag1"]:
+            t1 = np.array(r["lag1"]["val"], dtype=float)
+            if t1.shape != d.shape or not (np.abs(d - lag * t1) <= 1e-9 * np.maximum(1, np.abs(d))).all():
+                out.append(("mfpt-lag-linear", "mfpts(lagtime=%s) != %s * mfpts(lagtime=1) on %d states" % (c["lag"], c["lag"], n)))
+        else:
+            out.append(("mfpt-lag-linear", "lagtime=1 run failed: %s" % r["lag1"]))
+    seen, uniq = set(), []
+    for k, m in out:
+        if k not in seen:
+            seen.add(k)
+            uniq.append((k, m))
+    return uniq
 
 
 # ----------------------------------------------------------------------------- oracle
@@ -1065,6 +1381,8 @@ def oracle(c, r):
                     out.append((key, "history probe, call %d (%s; after every call the caller overwrites the array it got "
                                 "back: %s): %s" % (k, _phase_text(c, k), c["mut"], msg)))
         return out
+    if c["kind"] == "big":
+        return _oracle_big(c, r)
     out = []
     n = c["n"]
     CONTAINERS = [x for x in ALL_CONTAINERS if x in r]
@@ -1090,11 +1408,16 @@ def oracle(c, r):
     if c.get("stream") == "nearsym":
         atol = _nearsym_atol(c)
         close = lambda a, b: abs(a - b) <= atol
+    # ... and in the rare-state stream: per column of the table (see _rare_ctol)
+    ctol = _rare_ctol(c) if c.get("stream") == "rare" else None
+
+    def close_at(j):
+        return close if ctol is None else (lambda a, b: abs(a - b) <= ctol[j])
     # dense and sparse inputs give the same values
     d = _flat(r["dense"]["val"])
     for name in CONTAINERS[1:]:
         s = _flat(r[name]["val"])
-        if s != d and (len(s) != len(d) or not all(close(F(a), F(b)) for a, b in zip(d, s))):
+        if s != d and (len(s) != len(d) or not all(close_at(k % n)(F(a), F(b)) for k, (a, b) in enumerate(zip(d, s)))):
             out.append(("container-agreement", "%s result differs from dense: %s vs %s" % (name, s[:40], d[:40])))
     # the transition matrix, row by row, non-zero entries only (the sums below skip exact zeros)
     T = [[(j, F(x)) for j, x in enumerate(row) if x != 0] for row in _tprob(c).tolist()]
@@ -1165,10 +1488,10 @@ def oracle(c, r):
                 for i in range(n):
                     if i != j:
                         rhs = lag + sum(x * M[k][j] for k, x in T[i] if k != j)
-                        if not close(M[i][j], rhs):
+                        if not close_at(j)(M[i][j], rhs):
                             out.append(("mfpt-all-first-step", "%s: m[%d,%d]=%s but lag + sum_{k!=j} T[i,k] m[k,j]=%s" % (name, i, j, float(M[i][j]), float(rhs))))
                 col = r["cols"][j]
-                if "val" not in col or not all(close(M[i][j], F(col["val"][i])) for i in range(n)):
+                if "val" not in col or not all(close_at(j)(M[i][j], F(col["val"][i])) for i in range(n)):
                     out.append(("mfpt-column-agreement", "%s: column %d of the all-pairs table %s != mfpts(sinks=[%d]) %s" % (
                         name, j, [float(M[i][j]) for i in range(n)][:40], j, str(col)[:600])))
         if "val" in r["lag1"]:
@@ -1221,7 +1544,8 @@ def coq_check(c, r):
                 done.append((x, rx))
                 parts.append(coq_check(x, rx))
         return "(%s)" % " && ".join(parts)
-    if c.get("stream") in ("large", "nearsym"):
+    if c.get("stream") in ("large", "nearsym", "rare", "big"):
+        # (rare states: tolerance proportional to 1 / min population, see _rare_ctol; 1000+ states: see _oracle_big)
         # many states: exact elimination inside Coq is out of reach (n^4); near-symmetric rare-event chains: the
         # implementation is only accurate to ~1e-5 of the table's scale (see _nearsym_atol).  Oracle only.
         return None
@@ -1254,7 +1578,7 @@ def coq_check(c, r):
 
 
 def coq_show(c):
-    if c.get("stream") == "large":
+    if c.get("stream") in ("large", "big"):
         return "tt"
     if c["kind"] in ("seq", "hist"):
         return "(%s)" % ", ".join(_model(x, None, "_g") for x in c["calls" if c["kind"] == "seq" else "phases"])
@@ -1267,6 +1591,12 @@ def nontrivial(c, r):
         return all(nontrivial(x, rx) for x, rx in zip(c["calls"], r["calls"]))
     if c["kind"] == "hist":
         return all(nontrivial(x, rx) for x, rx in zip(c["phases"], r["phases"]))
+    if c["kind"] == "big":
+        if "val" not in r["dense"] or len(r["dense"]["val"]) != c["n"]:
+            return False
+        if c["what"] == "comm":
+            return any(1e-6 < q < 1 - 1e-6 for q in r["dense"]["val"])
+        return True
     if "val" not in r["dense"] or not _in_scope(c) or c["n"] < 3:
         return False
     if c["kind"] == "comm":
@@ -1322,6 +1652,17 @@ def tags(c, r):
             t.append("hist-all-calls-returned")
         if "dense-f32" in _names(c):
             t.append("hist-float32")
+        return t
+    if c["kind"] == "big":
+        t = ["big", "n>=1000"]
+        if all("val" in r[nm] for nm in BIG_CONTAINERS):
+            t.append("big-1000plus-" + ("committors" if c["what"] == "comm" else "mfpt-sinks"))
+            t.append("big-double-well" if c["chain"] == "dwell" else "big-two-basins")
+            t.append("big-1000plus-sparse-input")
+            if "lag" in c and c["lag"] != "1":
+                t.append("lag-not-1")
+            if len(c["snk"]) > 1:
+                t.append("big-multi-sink")
         return t
     t = []
     C = c["counts"]
@@ -1379,6 +1720,9 @@ def tags(c, r):
                 t.append("int-dtype-noninteger-lag-mfpt-multi-sink")
     if c.get("stream") == "nearsym" and "val" in r["dense"]:
         t.append("nearsym-all-pairs-pops-" + c["pops"])
+    if c.get("stream") == "rare" and all("val" in r[nm] for nm in CONTAINERS + [x for x in LAYOUTS if x != "dense-f32"]):
+        t.append("rare-all-pairs-pops-" + c["pops"])
+        t.append("rare-all-pairs-noninteger-lag" if F(c["lag"]).denominator != 1 else "rare-all-pairs-integer-lag-not-1")
     if c.get("stream") == "large" and _in_scope(c) and all("val" in r.get(nm, {}) for nm in SPARSE + MORE_SPARSE):
         t.append("large-sparse-" + what)
         if n >= 200:
